@@ -19,7 +19,7 @@ func init() { generators["C19"] = genC19 }
 // hRegexpFromSource reads the H-record regular expression literal from /repo's current source:
 // the model receives the match result as data, so it must be the expression the code uses.
 func hRegexpFromSource() (*regexp.Regexp, bool) {
-	src, err := os.ReadFile("/repo/encoding/igc/decode.go")
+	src, err := os.ReadFile(repoRoot() + "/encoding/igc/decode.go")
 	if err == nil {
 		if m := regexp.MustCompile("hRegexp\\s*=\\s*regexp\\.MustCompile\\(`([^`]*)`\\)").FindSubmatch(src); m != nil {
 			if re, err := regexp.Compile(string(m[1])); err == nil {
